@@ -41,6 +41,7 @@ type probeGo struct {
 	rpc, status    uint32
 	count          uint64
 	alive          bool
+	old            bool // on a connection accepted before the last runtime change of TransferSize
 }
 
 func (p probeGo) coq() string {
@@ -48,12 +49,15 @@ func (p probeGo) coq() string {
 	if p.kind == "WRITE" {
 		k = "PWrite"
 	}
-	return fmt.Sprintf("(mkProbe %s %s %d %d %d %d %d %d %d %d %s)", k, CBool(p.tcp), p.cnt, p.off, p.size, p.reclen, p.rpc, p.status, p.count, p.size2, CBool(p.alive))
+	return fmt.Sprintf("(mkProbe %s %s %d %d %d %d %d %d %d %d %s %s)", k, CBool(p.tcp), p.cnt, p.off, p.size, p.reclen, p.rpc, p.status, p.count, p.size2, CBool(p.alive), CBool(p.old))
 }
 func (p probeGo) text() string {
 	via := "handler"
 	if p.tcp {
 		via = fmt.Sprintf("tcp(record %d)", p.reclen)
+		if p.old {
+			via = fmt.Sprintf("tcp-old-conn(record %d)", p.reclen)
+		}
 	}
 	return fmt.Sprintf("%s %s cnt=%d off=%d size=%d => rpc=%d status=%d count=%d size'=%d alive=%v", via, p.kind, p.cnt, p.off, p.size, p.rpc, p.status, p.count, p.size2, p.alive)
 }
@@ -121,6 +125,7 @@ type c23In struct {
 	tcp     bool
 	export  bool // TCP server through AbsfsNFS.Export instead of NewServer+Listen
 	seed    uint64
+	seq     []int // further TransferSize values set at runtime while a TCP connection stays open
 }
 
 func runC23(in c23In, kind string, idx int) Case {
@@ -253,9 +258,10 @@ func runC23(in c23In, kind string, idx int) Case {
 
 	// ---------- over loopback TCP with record marking ----------
 	var tcpNums []uint64
+	var phases []phaseGo
 	if in.tcp {
-		ps, tn, ttxt := tcpC23(in, opts, r, tags)
-		tcpNums = tn
+		ps, tn, phs, ttxt := tcpC23(in, opts, r, tags)
+		tcpNums, phases = tn, phs
 		txt = append(txt, ttxt...)
 		for _, p := range ps {
 			probes = append(probes, p)
@@ -267,7 +273,25 @@ func runC23(in c23In, kind string, idx int) Case {
 		pc[i] = p.coq()
 		txt = append(txt, fmt.Sprintf("%d: %s", i+1, p.text()))
 	}
-	coq := fmt.Sprintf("(mkCase %d %s %s %s %s %s)", ts, CBool(in.runtime), CNs(nums), CNs(all), CNs(tcpNums), CList(pc))
+	phc := make([]string, len(phases))
+	for k, ph := range phases {
+		txt = append(txt, fmt.Sprintf("phase %d: TransferSize := %d at runtime (%s); FSINFO old connection %v, fresh connection %v", k, ph.ts, ph.how, ph.numsOld, ph.numsNew))
+		qc := make([]string, len(ph.probes))
+		for i, p := range ph.probes {
+			qc[i] = p.coq()
+			txt = append(txt, fmt.Sprintf("%d: %s", 1000*(k+1)+i+1, p.text()))
+			if p.old && p.kind == "WRITE" {
+				if p.rpc == 999 {
+					tags["old-conn-write-dropped"]++
+				} else if p.status == 0 && len(ph.numsNew) == 6 && uint64(p.cnt) == ph.numsNew[3] {
+					tags["old-conn-write-at-wtmax-ok"]++
+				}
+			}
+			tags["phase-probes"]++
+		}
+		phc[k] = fmt.Sprintf("(mkPhase %d %s %s %s)", ph.ts, CNs(ph.numsOld), CNs(ph.numsNew), CList(qc))
+	}
+	coq := fmt.Sprintf("(mkCase %d %s %s %s %s %s %s)", ts, CBool(in.runtime), CNs(nums), CNs(all), CNs(tcpNums), CList(pc), CList(phc))
 	return Case{Index: idx, Kind: kind, Coq: coq, Tags: tags, Text: strings.Join(txt, "\n")}
 }
 
@@ -278,8 +302,95 @@ func nums0(n []uint64, i int) uint64 {
 	return 0
 }
 
-// tcpC23 starts a real server and probes it with the record-marking client.
-func tcpC23(in c23In, opts absnfs.ExportOptions, r *Rand, tags map[string]int) (probes []probeGo, nums []uint64, txt []string) {
+type phaseGo struct {
+	ts               uint64
+	how              string
+	numsOld, numsNew []uint64
+	probes           []probeGo
+}
+
+// nfsConn is one record-marking client connection.
+type nfsConn struct {
+	cl   *rpcClient
+	addr string
+}
+
+func dialNFS(addr string) *nfsConn {
+	cl, err := dialRPC(addr, 5*time.Second, true)
+	if err != nil {
+		return nil
+	}
+	return &nfsConn{cl: cl, addr: addr}
+}
+func (c *nfsConn) close() { c.cl.conn.Close() }
+
+// call runs one NFS procedure; rpc: 0 accepted+success, 999 no reply, 2000 denied, 998 other
+func (c *nfsConn) call(proc string, q *nfsx.Req) (*nfsx.Obs, uint32) {
+	num := map[string]uint32{"NULL": 0, "LOOKUP": 3, "READ": 6, "WRITE": 7, "FSINFO": 19}[proc]
+	var args []byte
+	if q != nil {
+		args = q.Encode()
+	}
+	xid, raw, err := c.cl.call(progNFS, 3, num, args)
+	if err != nil {
+		return nil, 999
+	}
+	res, denied, err := acceptedResult(raw, xid)
+	if denied {
+		return nil, 2000
+	}
+	if err != nil {
+		return nil, 998
+	}
+	return nfsx.Decode(proc, res), 0
+}
+func (c *nfsConn) alive() bool { _, rc := c.call("NULL", nil); return rc == 0 }
+func (c *nfsConn) fsinfo(rootH uint64) []uint64 {
+	fi, rc := c.call("FSINFO", &nfsx.Req{Proc: "FSINFO", H: rootH})
+	if rc != 0 || fi == nil {
+		return nil
+	}
+	nums, _, _ := parseFsinfo(fi.Raw)
+	return nums
+}
+func (c *nfsConn) write(fs *specfs.FS, fh uint64, cnt uint32, off uint64) probeGo {
+	p := probeGo{kind: "WRITE", tcp: true, cnt: cnt, off: off, size: fileSize(fs)}
+	o, rc := c.call("WRITE", &nfsx.Req{Proc: "WRITE", H: fh, Off: off, Cnt: cnt, Stable: 2, Data: payload23(cnt)})
+	p.reclen, p.rpc = c.cl.lastLen, rc
+	if o != nil {
+		p.status = o.Status
+		if o.Trail != 0 {
+			p.rpc = 4001
+		}
+		if len(o.Nums) > 0 {
+			p.count = o.Nums[0]
+		}
+	}
+	p.alive = c.alive()
+	p.size2 = fileSize(fs)
+	return p
+}
+func (c *nfsConn) read(fs *specfs.FS, fh uint64, cnt uint32, off uint64) probeGo {
+	p := probeGo{kind: "READ", tcp: true, cnt: cnt, off: off, size: fileSize(fs)}
+	o, rc := c.call("READ", &nfsx.Req{Proc: "READ", H: fh, Off: off, Cnt: cnt})
+	p.reclen, p.rpc = c.cl.lastLen, rc
+	if o != nil {
+		p.status = o.Status
+		if o.Trail != 0 || (len(o.Nums) > 0 && uint64(len(o.Bytes)) != o.Nums[0]) {
+			p.rpc = 4001
+		}
+		if len(o.Nums) > 0 {
+			p.count = o.Nums[0]
+		}
+	}
+	p.alive = c.alive()
+	p.size2 = fileSize(fs)
+	return p
+}
+
+// tcpC23 starts a real server and probes it with the record-marking client; then (in.seq) it changes TransferSize
+// at runtime while one connection stays open and probes the new maxima on that connection and on a fresh one.
+func tcpC23(in c23In, opts absnfs.ExportOptions, r *Rand, tags map[string]int) (probes []probeGo, nums []uint64, phases []phaseGo, txt []string) {
 	absnfs.VerifSetClock(0) // socket deadlines need the real clock
 	defer absnfs.VerifSetClock(nfsx.Clock0)
 	fs := specfs.New()
@@ -299,7 +410,7 @@ func tcpC23(in c23In, opts absnfs.ExportOptions, r *Rand, tags map[string]int) (
 		tags["tcp-via-Export"]++
 		if err := nfs.Export("/", 0); err != nil {
 			tags["tcp-start-failed"]++
-			return nil, nil, []string{"Export failed: " + err.Error()}
+			return nil, nil, nil, []string{"Export failed: " + err.Error()}
 		}
 		port = nfs.VerifExportPort()
 	} else {
@@ -307,67 +418,46 @@ func tcpC23(in c23In, opts absnfs.ExportOptions, r *Rand, tags map[string]int) (
 		srv, err := absnfs.NewServer(absnfs.ServerOptions{Name: "vh", Port: 0, Hostname: "127.0.0.1", UseRecordMarking: true})
 		if err != nil {
 			tags["tcp-start-failed"]++
-			return nil, nil, []string{"NewServer failed: " + err.Error()}
+			return nil, nil, nil, []string{"NewServer failed: " + err.Error()}
 		}
 		srv.SetHandler(nfs)
 		if err := srv.Listen(); err != nil {
 			tags["tcp-start-failed"]++
-			return nil, nil, []string{"Listen failed: " + err.Error()}
+			return nil, nil, nil, []string{"Listen failed: " + err.Error()}
 		}
 		defer srv.Stop()
 		port = srv.GetPort()
 	}
 	addr := fmt.Sprintf("127.0.0.1:%d", port)
-	var cl *rpcClient
-	dial := func() bool {
-		if cl != nil {
-			cl.conn.Close()
-		}
-		var err error
-		cl, err = dialRPC(addr, 5*time.Second, true)
-		return err == nil
-	}
-	if !dial() {
+	c := dialNFS(addr)
+	if c == nil {
 		tags["tcp-dial-failed"]++
-		return nil, nil, []string{"dial failed"}
+		return nil, nil, nil, []string{"dial failed"}
 	}
-	defer func() { cl.conn.Close() }()
-	// nfs runs one NFS procedure; rpc: 0 accepted+success, 999 no reply, 2000 denied, 998 other
-	call := func(proc string, q *nfsx.Req) (*nfsx.Obs, uint32) {
-		prog, num := uint32(progNFS), map[string]uint32{"NULL": 0, "LOOKUP": 3, "READ": 6, "WRITE": 7, "FSINFO": 19}[proc]
-		var args []byte
-		if q != nil {
-			args = q.Encode()
+	defer func() {
+		if c != nil {
+			c.close()
 		}
-		xid, raw, err := cl.call(prog, 3, num, args)
-		if err != nil {
-			return nil, 999
+	}()
+	redial := func() {
+		c.close()
+		if c = dialNFS(addr); c == nil {
+			tags["tcp-redial-failed"]++
 		}
-		res, denied, err := acceptedResult(raw, xid)
-		if denied {
-			return nil, 2000
-		}
-		if err != nil {
-			return nil, 998
-		}
-		return nfsx.Decode(proc, res), 0
 	}
-	root, err := cl.mnt("/")
+	root, err := c.cl.mnt("/")
 	if err != nil || len(root) != 8 {
 		tags["tcp-mnt-failed"]++
-		return nil, nil, []string{fmt.Sprintf("MNT failed: %v", err)}
+		return nil, nil, nil, []string{fmt.Sprintf("MNT failed: %v", err)}
 	}
 	rootH := binary.BigEndian.Uint64(root)
-	lk, rc := call("LOOKUP", &nfsx.Req{Proc: "LOOKUP", H: rootH, Name: []byte("f")})
+	lk, rc := c.call("LOOKUP", &nfsx.Req{Proc: "LOOKUP", H: rootH, Name: []byte("f")})
 	if rc != 0 || lk.FH == nil {
 		tags["tcp-lookup-failed"]++
-		return nil, nil, []string{"LOOKUP over TCP failed"}
+		return nil, nil, nil, []string{"LOOKUP over TCP failed"}
 	}
 	fh := *lk.FH
-	fi, rc := call("FSINFO", &nfsx.Req{Proc: "FSINFO", H: rootH})
-	if rc == 0 {
-		nums, _, _ = parseFsinfo(fi.Raw)
-	}
+	nums = c.fsinfo(rootH)
 	txt = append(txt, fmt.Sprintf("FSINFO (tcp %s): %v", addr, nums))
 	var rtmax, wtmax uint64
 	if len(nums) == 6 {
@@ -375,61 +465,114 @@ func tcpC23(in c23In, opts absnfs.ExportOptions, r *Rand, tags map[string]int) (
 	}
 	ts := uint64(in.ts)
 	// the record of a WRITE of 0 bytes with this client's credential: everything but the payload
-	base := uint64(len(cl.callMsg(1, progNFS, 3, 7, (&nfsx.Req{Proc: "WRITE", H: fh}).Encode())))
+	base := uint64(len(c.cl.callMsg(1, progNFS, 3, 7, (&nfsx.Req{Proc: "WRITE", H: fh}).Encode())))
 	fit := uint64(1<<20) - base // largest count whose call fits a 1 MiB record (base is a multiple of 4)
 	wcounts := dedupe([]uint64{1, wtmax - 1, wtmax, wtmax + 1, ts, ts + 1, fit, fit + 1, fit + 4, 1 + uint64(r.Intn(int(wtmax)+1))})
 	rcounts := dedupe([]uint64{1, rtmax, rtmax + 1, ts + 1, 2 << 20})
-	alive := func() bool {
-		_, rc := call("NULL", nil)
-		if rc == 0 {
-			return true
+	for _, cnt := range wcounts {
+		if c == nil {
+			break
 		}
-		if !dial() {
+		p := c.write(fs, fh, cnt, PickU64(r, 0, 7, 4096))
+		if !p.alive {
+			redial()
+		}
+		probes = append(probes, p)
+	}
+	for _, cnt := range rcounts {
+		if c == nil {
+			break
+		}
+		p := c.read(fs, fh, cnt, PickU64(r, 0, 5, fileSize(fs)-1))
+		if !p.alive {
+			redial()
+		}
+		probes = append(probes, p)
+	}
+	// ---------- runtime changes while a connection stays open ----------
+	if c == nil || len(in.seq) == 0 {
+		return
+	}
+	cur := in.ts
+	for _, v := range in.seq {
+		ph := phaseGo{ts: uint64(v), how: "UpdateTuningOptions"}
+		if r.Chance(25) {
+			o := nfs.GetExportOptions()
+			o.TransferSize = v
+			o.Squash = ""
+			if err := nfs.UpdateExportOptions(o); err == nil {
+				ph.how = "UpdateExportOptions"
+			} else {
+				nfs.UpdateTuningOptions(func(t *absnfs.TuningOptions) { t.TransferSize = v })
+			}
+		} else {
+			nfs.UpdateTuningOptions(func(t *absnfs.TuningOptions) { t.TransferSize = v })
+		}
+		if v > cur {
+			tags["phase-raise"]++
+		} else if v < cur {
+			tags["phase-lower"]++
+		}
+		cur = v
+		tags["phases"]++
+		// the connection accepted before the change
+		old := true
+		ph.numsOld = c.fsinfo(rootH)
+		if len(ph.numsOld) == 6 {
+			om, op, or := ph.numsOld[3], ph.numsOld[4], ph.numsOld[0]
+			for _, cnt := range dedupe([]uint64{om, op}) {
+				p := c.write(fs, fh, cnt, PickU64(r, 0, 7, 4096))
+				p.old = old
+				ph.probes = append(ph.probes, p)
+				if !p.alive {
+					redial()
+					old = false
+					if c == nil {
+						break
+					}
+				}
+			}
+			if c != nil && or <= c23MaxProbe {
+				p := c.read(fs, fh, uint32(or), PickU64(r, 0, 5))
+				p.old = old
+				ph.probes = append(ph.probes, p)
+				if !p.alive {
+					redial()
+				}
+			}
+		}
+		// a connection accepted after the change
+		if n := dialNFS(addr); n != nil {
+			ph.numsNew = n.fsinfo(rootH)
+			if len(ph.numsNew) == 6 {
+				if ph.numsNew[3] <= c23MaxProbe {
+					ph.probes = append(ph.probes, n.write(fs, fh, uint32(ph.numsNew[3]), PickU64(r, 0, 7, 4096)))
+				}
+				if ph.numsNew[0] <= c23MaxProbe {
+					n2 := n
+					if len(ph.probes) > 0 && !ph.probes[len(ph.probes)-1].alive {
+						n.close()
+						n2 = dialNFS(addr)
+					}
+					if n2 != nil {
+						ph.probes = append(ph.probes, n2.read(fs, fh, uint32(ph.numsNew[0]), PickU64(r, 0, 5)))
+						n = n2
+					}
+				}
+			}
+			n.close()
+		} else {
 			tags["tcp-redial-failed"]++
 		}
-		return false
-	}
-	for _, c := range wcounts {
-		off := PickU64(r, 0, 7, 4096)
-		p := probeGo{kind: "WRITE", tcp: true, cnt: c, off: off, size: fileSize(fs)}
-		o, rc := call("WRITE", &nfsx.Req{Proc: "WRITE", H: fh, Off: off, Cnt: c, Stable: 2, Data: payload23(c)})
-		p.reclen = cl.lastLen
-		p.rpc = rc
-		if o != nil {
-			p.status = o.Status
-			if o.Trail != 0 {
-				p.rpc = 4001
-			}
-			if len(o.Nums) > 0 {
-				p.count = o.Nums[0]
-			}
+		phases = append(phases, ph)
+		if c == nil {
+			break
 		}
-		p.alive = alive()
-		p.size2 = fileSize(fs)
-		probes = append(probes, p)
 	}
-	for _, c := range rcounts {
-		sz := fileSize(fs)
-		off := PickU64(r, 0, 5, sz-1)
-		p := probeGo{kind: "READ", tcp: true, cnt: c, off: off, size: sz}
-		o, rc := call("READ", &nfsx.Req{Proc: "READ", H: fh, Off: off, Cnt: c})
-		p.reclen = cl.lastLen
-		p.rpc = rc
-		if o != nil {
-			p.status = o.Status
-			if o.Trail != 0 || (len(o.Nums) > 0 && uint64(len(o.Bytes)) != o.Nums[0]) {
-				p.rpc = 4001
-			}
-			if len(o.Nums) > 0 {
-				p.count = o.Nums[0]
-			}
-		}
-		p.alive = alive()
-		p.size2 = fileSize(fs)
-		probes = append(probes, p)
-	}
-	return probes, nums, txt
+	return
 }
+
+var c23Seq = []int{2048, 8192, 65536, 300000, 1 << 20, 4 << 20, 512, 1044480, 100000, 1 << 32}
 
 var c23Fixed = []int{1, 512, 4096, 65536, 1 << 20, 1<<20 + 1, 1 << 31, 1044480, 1044479, 1044481, 1 << 32, 1<<32 + 5, 1<<32 + 1<<20, 3 << 32, 1<<62 + 7}
 
@@ -453,6 +596,16 @@ func genC23(r *Rand, idx int, tier string) Case {
 		in.ts, kind = (1+r.Intn(3))<<32+PickInt(r, 0, 1, 5, 4096, 1044479, 1044480, 1<<20, 1<<20+1, r.Intn(1<<22)), "above-2^32"
 	}
 	in.ts0 = PickInt(r, 1, 17, 65536, 1<<20, 1<<21)
+	if in.tcp {
+		for k := 0; k < 2+r.Intn(2); k++ {
+			v := c23Seq[r.Intn(len(c23Seq))]
+			if r.Chance(25) {
+				v = 1 + r.Intn(2000000)
+			}
+			in.seq = append(in.seq, v)
+		}
+		kind += "/seq"
+	}
 	if in.runtime {
 		kind += "/runtime"
 	}
@@ -466,7 +619,11 @@ func corpusC23() []Case {
 	var out []Case
 	for i, ts := range c23Fixed {
 		in := c23In{ts: ts, ts0: []int{65536, 7, 1 << 21}[i%3], runtime: i%2 == 1, tcp: true, export: i%4 == 2, seed: uint64(1000 + i)}
+		in.seq = [][]int{{65536, 2048}, {1 << 20, 8192}, {4 << 20, 65536}}[i%3]
 		out = append(out, runC23(in, fmt.Sprintf("ts=%d", ts), i))
 	}
+	// one connection across raises and falls (seeded change C23-3: the record limit frozen at accept time)
+	out = append(out, runC23(c23In{ts: 8192, ts0: 8192, tcp: true, seed: 2001, seq: []int{65536, 2048, 300000, 1 << 20, 4 << 20, 8192, 1044480}}, "one-connection-across-updates", len(c23Fixed)))
+	out = append(out, runC23(c23In{ts: 2048, ts0: 65536, runtime: true, tcp: true, export: true, seed: 2002, seq: []int{8192, 65536, 300000, 512, 1 << 20}}, "one-connection-across-updates", len(c23Fixed)+1))
 	return out
 }
